@@ -254,6 +254,35 @@ def handle : List String → String
       else if mode == "auto" then (if ev then viaEval else viaFetch) ++ " / " ++ db
       else "bad-op"
     | _, _ => "bad-op"
+  | ["bulkpk", params, slots] =>
+    -- params `pk=c:v.c:v|…`; slots `pk/db ints/L|U/loaded ints/expired nats` joined by `;`
+    let ps := (params.splitOn "|").mapM (fun (p : String) =>
+      match p.splitOn "=" with
+      | [pk, cols] => do
+        let pk ← pk.toNat?
+        let cs ← (if cols == "-" then some [] else (cols.splitOn ".").mapM (fun (cv : String) =>
+          match cv.splitOn ":" with
+          | [c, v] => do pure ((← c.toNat?), (← parseOptInt? v))
+          | _ => none))
+        pure (pk, cs)
+      | _ => none)
+    let ss := (slots.splitOn ";").mapM (fun (sl : String) =>
+      match sl.splitOn "/" with
+      | [pk, db, flag, vals, xi] => do
+        let pk ← pk.toNat?
+        let db ← parseOptIntList? db
+        if flag == "U" then pure (Slot.mk pk db none)
+        else pure (Slot.mk pk db (some ((← parseOptIntList? vals), (← parseNatList? xi))))
+      | _ => none)
+    match ps, ss with
+    | some ps, some ss =>
+      ";".intercalate ((bulkByPk ps ss).map (fun (s : Slot) =>
+        toString s.pk ++ "/" ++ showInts s.db ++ "/" ++
+          (match s.sess with
+           | none => "U"
+           | some o => ",".intercalate ((List.range s.db.length).map (fun c =>
+               if o.2.contains c then "X" else showOptInt (o.1.getD c none))))))
+    | _, _ => "bad-op"
   | _ => "bad-op"
 
 end SaVerif.Drv.Eval
